@@ -417,6 +417,15 @@ func TestC14(t *testing.T) {
 				if rapid.Bool().Draw(t, "poison_cname") {
 					z.Poison = append(z.Poison, dnsfx.PoisonRec{Owner: "evil.example", Type: 5, Rec: dnsfx.ZRec{TTL: 60, CNAME: "t1.example"}})
 				}
+				if rapid.Bool().Draw(t, "poison_lookalike_owner") {
+					// owners that differ from the asked name only by a character Unicode case folding
+					// maps onto an ASCII letter (U+017F long s, U+212A Kelvin sign): DNS compares
+					// octets with ASCII case only (RFC 4343), these are other names
+					for i := range z.Poison {
+						z.Poison[i].Owner = "$LOOKALIKE"
+					}
+					cl = append(cl, "poison_lookalike_owner")
+				}
 				z.PoisonFirst = rapid.Bool().Draw(t, "poison_first")
 				cl = append(cl, "poison")
 			}
